@@ -2289,6 +2289,16 @@ class Fouriergate(Gate):
     def __init__(self):
         super().__init__([np.pi / 2])
 
+    def merge(self, other):
+        if not self.__class__ == other.__class__:
+            raise MergeFailure("Not the same gate family.")
+
+        # F F is a rotation by pi, which is not a Fourier gate; only F and F^dagger combine
+        if self.dagger != other.dagger:
+            return None
+
+        raise MergeFailure("Don't know how to merge these gates.")
+
     def _decompose(self, reg, **kwargs):
         # into a rotation
         theta = np.pi / 2
